@@ -84,6 +84,19 @@ def scenarios(tier):
         sessions = [S(0, 2, True, False, maxNormalOrders=2, events=["PL"]), S(1, 2, True, True, maxNormalOrders=2)]
         sc[name] = Scenario(name, mkcfg(sessions, markets=markets, agents=ags, events=ev),
                             meta=dict(limit_rule=dict(targets=targets, r=0.25, enabled=True)))
+    # the target is an index market whose own time-0 price (110) is not the value of its basket (100)
+    for targets in (["IDX"], ["IDX", "M0"]):
+        name = "index_market_target:%s" % "+".join(targets)
+        menu = menus(0.25, 1.0)
+        markets = [dict(name="M0", tick=1.0, shares=1), dict(name="M1", tick=1.0, shares=2),
+                   dict(name="IDX", tick=1.0, cls="ProbeIndexMarket", components=["M0", "M1"], price=110.0)]
+        # menu items address markets by position: position 2 is the index market
+        ags = [dict(name="A0", menu=menu, program=[28, 1, 27, 5], markets=["M0", "M1", "IDX"]),
+               dict(name="A1", menu=menu, program=[27, 2, 28, 6], markets=["M0", "M1", "IDX"])]
+        ev = {"PL": {"class": "PriceLimitRule", "targetMarkets": targets, "triggerChangeRate": 0.25}}
+        sessions = [S(0, 2, True, False, maxNormalOrders=2, events=["PL"]), S(1, 2, True, True, maxNormalOrders=2)]
+        sc[name] = Scenario(name, mkcfg(sessions, markets=markets, agents=ags, events=ev),
+                            meta=dict(limit_rule=dict(targets=targets, r=0.25, enabled=True)))
     # the rule's entry inherits over two extends levels; rate and targets differ between parent and grandparent
     for leaf_keys in ((), ("triggerChangeRate",)):
         name = "rule_inherits_over_two_levels:%s" % ("leaf_sets_rate" if leaf_keys else "leaf_sets_nothing")
